@@ -79,6 +79,11 @@ pub fn problems_for(tier: Tier, scope: Scope) -> Vec<(String, PProblem)> {
     if matches!(scope, Scope::Accounting | Scope::Reporting) {
         out.extend(family_cluster().into_iter().map(|p| ("cluster".to_string(), p)));
     }
+    // feature interaction: every pair (thorough: and every triple) of the feature transforms
+    out.extend(family_combo(1).into_iter().chain(family_combo(2)).map(|p| ("combo".to_string(), p)));
+    if tier != Tier::Quick {
+        out.extend(family_combo(3).into_iter().map(|p| ("combo".to_string(), p)));
+    }
     // clustering x job attributes: every scope; of the hard rules those which do not need the schedule
     out.extend(family_cluster_attr().into_iter().map(|p| ("cluster".to_string(), p)));
     out
@@ -111,7 +116,7 @@ pub fn judge(family: &str, problem: &PProblem, cfg: &SolveCfg, scope: Scope) -> 
     let scen = json!({"family": family, "problem": problem.name, "cfg": cfg.to_json()});
     match solve(problem, cfg, None, None) {
         Ok(solved) => {
-            let findings = oracle::check(problem, &solved.json, &OracleOptions { tol: tolerance_for(family) });
+            let findings = oracle::check(problem, &solved.json, &OracleOptions { tol: tolerance_for(family).max(oracle::tolerance(family, problem)) });
             if std::env::var("VERIF_DUMP").is_ok() {
                 eprintln!("PROBLEM {}\nMATRICES {}\nSOLUTION {}", problem.problem_json(), json!(problem.matrices_json()), solved.json);
                 for f in &findings {
